@@ -142,9 +142,13 @@ def _re_lit(cs):
 
 def render_re(e):
     q = "+" if e["min"] >= 1 else "*"
-    core = _re_cls(e["set"]) + q
-    if e["grp"]:
-        core = "(" + core + ")"
+    if e["set"]:
+        core = _re_cls(e["set"]) + q
+        if e["grp"]:
+            core = "(" + core + ")"
+    else:
+        assert e["min"] == 0 and not e["grp"] and e["pre"]
+        core = ""                          # a plain word written as a regex: /warn/
     pre = _re_lit(e["pre"])
     if e.get("ncg") and pre:
         pre = "(?:" + pre + ")"          # another spelling of the same regex (non-capturing group first)
@@ -182,7 +186,9 @@ def render(e, top=False):
             inner = "(" + inner + ")"
         return inner + op + (_mods(e) if k != "opt" else "") + sup
     if k == "unord":
-        return "(" + " ".join(render(x) for x in e["es"]) + ")#" + _mods(e) + sup
+        # "(a b c)#" and "(a | b | c)#" are the same group (docs: applied to a sequence or an ordered choice)
+        glue = " | " if e.get("altform") else " "
+        return "(" + glue.join(render(x) for x in e["es"]) + ")#" + _mods(e) + sup
     if k == "and":
         return "&" + _pred_arg(e["e"])
     if k == "not":
@@ -390,6 +396,11 @@ class GrammarGen:
             if self.chance(self.o.get("esc", 0.0)):
                 t["esc"] = True
             return t
+        if r < 0.55 and self.chance(0.12):
+            # a plain word written as a regex (same words as the string literals)
+            w = [x for x in self.o["lits"] if x.isalnum()]
+            if w:
+                return Re(self.pick(w), "", 0, "")
         if r < 0.55:
             st = self.pick(RSETS)
             pre = self.pick(["", "", "#", "x"])
@@ -408,9 +419,12 @@ class GrammarGen:
     def sep(self):
         if not self.chance(self.o["sep"]):
             return None
-        if self.chance(0.8):
+        r = self.rng.random()
+        if r < 0.7:
             return Str(self.pick(SEPS))
-        return Re("", ",;", 1, "")
+        if r < 0.85:
+            return Re("", ",;", 1, "")
+        return Re("", ",", 0, "")          # an optional separator: may match the empty string (no node then)
 
     def rhs(self, names_below):
         return self.terminal(names_below)
@@ -443,8 +457,11 @@ class GrammarGen:
             return f(inner, self.sep(), self.chance(self.o["eol"]))
         if r < 0.86 + self.o["unord"]:
             n = self.rng.randrange(2, 4)
-            return Unord([self.expr(d - 1, names_below, assign, attrs) for _ in range(n)], self.sep(),
-                         self.chance(self.o["eol"]))
+            u = Unord([self.expr(d - 1, names_below, assign, attrs) for _ in range(n)], self.sep(),
+                      self.chance(self.o["eol"]))
+            if self.chance(0.4):
+                u["altform"] = True      # written as an ordered choice: the same group
+            return u
         if self.chance(self.o["preds"] * 3):
             f = And if self.chance(0.5) else Not
             return Seq([f(self.expr(0, names_below, False, attrs)), self.expr(d - 1, names_below, assign, attrs)])
@@ -476,6 +493,10 @@ class GrammarGen:
                         # an alternative made of plain matches only: yields the concatenated text
                         alts.insert(self.rng.randrange(len(alts) + 1),
                                     Seq([Str(self.pick(["[", "<", "un"])), Str(self.pick(["]", ">", "int"]))]))
+                    if self.chance(0.2):
+                        # ... and one made of base-type matches only (the text as written, not the converted values)
+                        alts.insert(self.rng.randrange(len(alts) + 1),
+                                    Seq([Ref(self.pick(["INT", "STRING"])), Ref(self.pick(["BOOL", "INT", "STRING"]))]))
                     body = Alt(alts) if len(alts) > 1 else alts[0]
                 if kind == "common" and i > 0 and self.chance(0.3):
                     # recursion back to this or an earlier rule (possibly an alias rule), guarded by a terminal
@@ -499,11 +520,38 @@ class GrammarGen:
                 else:                   # a choice of a reference and a regex
                     rules.append(RuleD("Comment", Alt([Ref("LineC"), Re("%", "ab", 1, "%")])))
                     rules.append(RuleD("LineC", line))
+            if len(rules) > 1 and self.chance(0.12):
+                # 'sep' is an ordinary rule name (the separator of a repetition modifier is not a rule)
+                victim = self.pick([r["name"] for r in rules[1:] if r["name"] not in ("Comment", "LineC")] or [None])
+                if victim:
+                    rename_rule(rules, victim, "sep")
+            if self.chance(0.3):
+                # the order in which rules are defined (after the first) carries no meaning
+                tail = rules[1:]
+                self.rng.shuffle(tail)
+                rules = rules[:1] + tail
             g = dict(rules=rules)
             # every non-root rule must be referenced, or it is dead weight: fine, textX allows it.
             if well_formed(g):
                 return number(g)
         raise RuntimeError("could not generate a well-formed grammar")
+
+
+def rename_rule(rules, old, new):
+    """Renames a rule and every reference to it (in place)."""
+    def go(x):
+        if isinstance(x, dict):
+            if x.get("k") == "ref" and x.get("name") == old:
+                x["name"] = new
+            for v in x.values():
+                go(v)
+        elif isinstance(x, list):
+            for v in x:
+                go(v)
+    for r in rules:
+        if r["name"] == old:
+            r["name"] = new
+        go(r["body"])
 
 
 # ----------------------------------------------------------------------------- sentences
@@ -517,14 +565,14 @@ class SentenceGen:
         return text(e["lit"])
 
     def tok_re(self, e):
-        n = self.rng.randrange(e["min"], e["min"] + 3)
         cs = text(e["set"])
+        n = self.rng.randrange(e["min"], e["min"] + 3) if cs else 0
         return text(e["pre"]) + "".join(self.rng.choice(cs) for _ in range(n)) + text(e["post"])
 
     def tok_base(self, name):
         r = self.rng
         if name == "ID":
-            return r.choice(["a", "b", "ab", "foo", "_x1", "if", "k1", "true"])
+            return r.choice(["a", "b", "ab", "foo", "_x1", "if", "k1", "true", "\u00e9a"])
         if name == "INT":
             return r.choice(["0", "1", "42", "-7", "+3", "007"])
         if name == "BOOL":
@@ -596,7 +644,7 @@ class SentenceGen:
         return toks
 
 
-WS_CHOICES = [" ", " ", " ", "", "\n", "  ", "\t", " \n "]
+WS_CHOICES = [" ", " ", " ", "", "\n", "  ", "\t", " \n ", "\r\n", "\r"]
 
 
 def join(rng, toks, comment=False, glue=0.15):
@@ -624,7 +672,7 @@ def mutate(rng, s, toks):
         return s[:i] + s[i + 1:]
     if r < 0.5:
         i = rng.randrange(len(s) + 1)
-        return s[:i] + rng.choice("ab1 ,;+#\n-") + s[i:]
+        return s[:i] + rng.choice("ab1 ,;+#\n-\u00e9") + s[i:]
     if r < 0.7 and toks:
         t = list(toks)
         i = rng.randrange(len(t))
